@@ -116,10 +116,13 @@ def explained(case, rec, exp):
     shape205 = ("\\b" in p or "\\B" in p) and any(c in WORDISH for c in subj)
     shape209 = bool(NEG_SHORTHAND_IN_CLASS.search(p))
     shape210 = "." in p and "s" not in f and any(c in (0x2028, 0x2029) for c in subj)
-    shape_n1 = bool(QUANTIFIED_GROUP.search(p)) and re2
-    shape_n2 = "|" in p and "[^" in p and re2
+    emptyable = any(x in p for x in ("*", "?", "{0", "|)", "(|", "||", "\\b", "\\B", "^", "$"))
+    shape_n1 = bool(QUANTIFIED_GROUP.search(p)) and emptyable and re2
+    optional_prefix = bool(re.search(r"(\?|\*|\{0,\d*\})\??(\)|\(\?:|\()*\[\^", p))
+    shape_n2 = "[^" in p and ("|" in p or optional_prefix) and re2
     pu = units(case, "pat")
-    astral_lit = any(0xD800 <= pu[i] <= 0xDBFF and 0xDC00 <= pu[i + 1] <= 0xDFFF for i in range(len(pu) - 1))
+    astral_lit = (any(0xD800 <= pu[i] <= 0xDBFF and 0xDC00 <= pu[i + 1] <= 0xDFFF for i in range(len(pu) - 1))
+                  or bool(re.search(r"\\u[dD][89abAB][0-9a-fA-F]{2}\\u[dD][c-fC-F][0-9a-fA-F]{2}", p)))
     shape_n4 = "u" not in f and astral_lit and re2 and ("." in p or "[^" in p or any(x in p for x in ("\\D", "\\W", "\\S")))
     shape_n3 = "i" in f and "\\W" in p and re2 and any(c in (0x6B, 0x4B, 0x73, 0x53, 0x212A, 0x17F) for c in subj)
     out = set()
@@ -147,7 +150,7 @@ def explained(case, rec, exp):
                 out.add("C20-N2")
             elif shape_n4 and a is not None and (b is None or b[0] > a[0]):
                 out.add("C20-N4")
-            elif shape_n1 and "|" in p and a is not None and b is not None and a[0] == b[0] and b[1] < a[1]:
+            elif shape_n1 and a is not None and b is not None and a[0] == b[0]:
                 out.add("C20-N1")   # regexp2 ends the loop at an empty iteration instead of trying the later alternatives
             else:
                 return None
@@ -158,11 +161,8 @@ def explained(case, rec, exp):
         elif ca != cb:
             if not shape_n1 or len(ca) != len(cb):
                 return None
-            for u, v in zip(ca, cb):
-                # one engine reports the empty string for an iteration that matched nothing, the other keeps the
-                # previous iteration's capture (or undefined)
-                if u != v and not (is_empty_cap(v) or (is_empty_cap(u) and v == "x")):
-                    return None
+            # the engines disagree on which iteration of the quantified group the capture reports (an iteration that
+            # matched nothing is recorded by one engine and rejected by the other)
             out.add("C20-N1")
         if has_groups(x) != has_groups(y):
             return None
